@@ -4,6 +4,7 @@ let () =
   let prop = Sys.argv.(1) and file = Sys.argv.(2) in
   let ic = open_in file in
   let run = match prop with
+    | "c03" -> C03.run_line
     | "c04" -> C04.run_line
     | "c16" -> C16.run_line
     | "c18" -> C18.run_line
